@@ -683,7 +683,12 @@ func checkC19(c *Ctx) {
 	valPool := []func() interface{}{func() interface{} { return 1 }, func() interface{} { return "s<>&\"" }, func() interface{} { return 2.5 }, func() interface{} { return nil },
 		func() interface{} { return []int{1, 2} }, func() interface{} { return map[string]interface{}{"b": 1, "a": "x"} }, func() interface{} { return true },
 		func() interface{} { return make(chan int) }, func() interface{} { return func() {} }, func() interface{} { return math.NaN() }, func() interface{} { return math.Inf(1) },
-		func() interface{} { return complex(1, 1) }, func() interface{} { return []interface{}{1, "a", nil} }, func() interface{} { return int64(1) << 60 }, func() interface{} { return "é " }, func() interface{} { return 1e21 }}
+		func() interface{} { return complex(1, 1) }, func() interface{} { return []interface{}{1, "a", nil} }, func() interface{} { return int64(1) << 60 }, func() interface{} { return "é " }, func() interface{} { return 1e21 },
+		// maps with different key sets under one key in successive Sets: the later value replaces the earlier one, it is not merged into it
+		func() interface{} { return map[string]interface{}{"path": "a.b", "type": "string"} }, func() interface{} { return map[string]interface{}{"path": "a.c"} },
+		func() interface{} { return parser.ErrVals{"path": "z", "n": 1} }, func() interface{} { return parser.ErrVals{"other": true} },
+		func() interface{} { return map[string]interface{}{"m": map[string]interface{}{"x": 1}} }, func() interface{} { return map[string]interface{}{"m": map[string]interface{}{"y": 2}} },
+		func() interface{} { return map[string]interface{}{} }}
 	for i := 0; i < n && !c.full(); i++ {
 		var fields, hist, got []string
 		text := pick(c.R, msgPool) + strconv.Itoa(c.R.Intn(10))
